@@ -3,6 +3,7 @@
 R5.1 no file before the maps exist: both SystemError sites and the exchange-map test dominate the opening of the output
 R5.2 single pass in file order: the loop iterates the system directly; species filtering is a `continue` guarded by
      membership in the complete-correspondence mapping; the map applied is looked up under the same key that was tested
+R5.7 the table of complete species is recomputed on every access (no stored copy that goes stale)
 R5.3 every atom exactly once: all paths through the inner body write exactly one line built from that atom
 R5.4 running counter: starts at 1 outside both loops, stored into the atom-number slot before being incremented,
      incremented exactly once per written line, never reset
@@ -101,6 +102,7 @@ def run(ctx: Ctx):
            "extrapolating with nothing to map, or before every species' exchange map exists, raises before any file is created",
            node=chk_loops[0] if chk_loops else f.node)
 
+    _r5_7(ctx)
     res_ = _r5_2_to_4(ctx, f, cfg, dom, pm, op, cc)
     # ------------------------------------------------------------------ R5.5
     withs = [n for n in walk_no_nested(f.node) if isinstance(n, ast.With) and any(op is x for i in n.items for x in ast.walk(i.context_expr))]
@@ -150,6 +152,31 @@ def run(ctx: Ctx):
     c11.r11_1_2(ctx)
     c11.r11_3(ctx)
 
+
+
+def _r5_7(ctx: Ctx, rule: str = "R5.7"):
+    """The table of species with both resolutions attached is a *view* of the current state: the property that hands it
+    out recomputes it on every access.  A stored copy goes stale as soon as an end molecule is attached by any route
+    that does not clear it (the setter of Alignment.end is public), and the next extrapolation silently leaves that
+    species out."""
+    g = ctx.func("Manager.complete_correspondence@get")
+    stores = [s_ for s_ in ast.walk(g.node) if isinstance(s_, (ast.Assign, ast.AugAssign, ast.AnnAssign))
+              for t_ in (s_.targets if isinstance(s_, ast.Assign) else [s_.target])
+              if isinstance(t_, ast.Attribute) and norm(t_.value) == "self"]
+    rets = [r_ for r_ in walk_no_nested(g.node) if isinstance(r_, ast.Return) and r_.value is not None]
+    cached_ret = [r_ for r_ in rets if isinstance(r_.value, ast.Attribute) and norm(r_.value.value) == "self"
+                  and r_.value.attr != "molecule_correspondence"]
+    deco = [norm(d_) for d_ in g.node.decorator_list]
+    memo = [d_ for d_ in deco if any(k_ in d_ for k_ in ("cache", "lru", "memo"))]
+    bad = stores or cached_ret or memo
+    ctx.ob(rule, g, (stores or cached_ret or [g.node])[0] if not memo else "decorator %s" % memo[0], not bad,
+           "the species with both resolutions attached are recomputed from the alignments on every access"
+           + ("" if not bad else " -- the table is kept in `%s`: an end molecule attached afterwards (Alignment.end is assignable) "
+              "is not seen by the next extrapolation" % (norm(stores[0].targets[0] if stores and isinstance(stores[0], ast.Assign) else
+                                                              (cached_ret[0].value if cached_ret else memo[0])))),
+           node=(stores or cached_ret or [g.node])[0])
+    src_ok = any(isinstance(x_, ast.Attribute) and x_.attr == "molecule_correspondence" for x_ in ast.walk(g.node))
+    ctx.ob(rule, g, "source of the table", src_ok, "the table is derived from molecule_correspondence (start and end both set)", node=g.node)
 
 
 def _r5_2_to_4(ctx: Ctx, f, cfg, dom, pm, op, cc):
